@@ -82,6 +82,8 @@ var (
 	root     = "/verif"
 	buildDir string
 	goEnv    []string
+	outRoot  string // where evidence/ and replays/ are written (root, unless a scratch repo is being checked)
+	modfile  string // alternative go.mod pointing at a scratch copy of the repository (VERIF_REPO), else ""
 )
 
 func main() {
@@ -137,6 +139,29 @@ func main() {
 	goEnv = append(os.Environ(),
 		"GOFLAGS=-mod=mod", "GOPROXY=off", "GOSUMDB=off", "GOTOOLCHAIN=local", "GONOSUMDB=*", "GONOSUMCHECK=1", "GOWORK=off")
 
+	outRoot = root
+	if alt := os.Getenv("VERIF_REPO"); alt != "" && alt != "/repo" {
+		// Checking a scratch copy of the repository (used only for validating
+		// the monitors against seeded changes; registered commands never set
+		// this). Results go to a scratch directory so that the committed
+		// evidence is not touched.
+		data, err := os.ReadFile(filepath.Join(root, "harness", "go.mod"))
+		if err != nil {
+			fmt.Fprintln(os.Stderr, "vcheck:", err)
+			os.Exit(2)
+		}
+		mod := strings.Replace(string(data), "=> /repo", "=> "+alt, 1)
+		modfile = filepath.Join(buildDir, "alt.mod")
+		os.WriteFile(modfile, []byte(mod), 0o644)
+		sum, _ := os.ReadFile(filepath.Join(root, "harness", "go.sum"))
+		os.WriteFile(filepath.Join(buildDir, "alt.sum"), sum, 0o644)
+		outRoot = os.Getenv("VERIF_OUT")
+		if outRoot == "" {
+			outRoot = filepath.Join(os.TempDir(), fmt.Sprintf("verif-out-%d", os.Getpid()))
+		}
+		os.MkdirAll(outRoot, 0o755)
+	}
+
 	code := 2
 	func() {
 		defer os.RemoveAll(buildDir)
@@ -179,6 +204,9 @@ func buildWorker(id, fl string, m *meta) (string, string, error) {
 	}
 	out := filepath.Join(buildDir, "worker-"+fl)
 	args := []string{"build", "-tags", "verif p" + id}
+	if modfile != "" {
+		args = append(args, "-modfile="+modfile)
+	}
 	args = append(args, flavourFlags(fl, m)...)
 	args = append(args, "-o", out, "./cmd/worker")
 	cmd := exec.Command("go", args...)
@@ -650,7 +678,7 @@ func openFinding(fs []finding, fid, prop string) *finding {
 
 func doCheck(id, tier string, seed uint64) int {
 	start := time.Now()
-	evPath := filepath.Join(root, "evidence", id+".json")
+	evPath := filepath.Join(outRoot, "evidence", id+".json")
 	os.MkdirAll(filepath.Dir(evPath), 0o755)
 
 	bin, log, err := buildWorker(id, "plain", nil)
@@ -776,12 +804,12 @@ func doCheck(id, tier string, seed uint64) int {
 	sort.SliceStable(real, func(i, j int) bool { return kindRank(real[i].Kind) < kindRank(real[j].Kind) })
 	real = dedupe(real)
 	code := 0
-	os.MkdirAll(filepath.Join(root, "replays"), 0o755)
+	os.MkdirAll(filepath.Join(outRoot, "replays"), 0o755)
 	for i, v := range real {
 		if i >= 5 {
 			break
 		}
-		p := filepath.Join(root, "replays", fmt.Sprintf("%s-%s-seed%d-%d.json", id, tier, seed, i))
+		p := filepath.Join(outRoot, "replays", fmt.Sprintf("%s-%s-seed%d-%d.json", id, tier, seed, i))
 		data, _ := json.MarshalIndent(v, "", " ")
 		os.WriteFile(p, data, 0o644)
 		fmt.Printf("VIOLATION property=%s replay=%s\n", id, p)
